@@ -759,6 +759,30 @@ func targeted(emit func(stream string, t *Y)) {
 			emit("targeted:blank", t)
 		}
 	}
+	// white space after a TZ= / CRON_TZ= prefix: the cron library looks for U+0020 only
+	for _, pre := range []string{"TZ=UTC", "CRON_TZ=UTC", "TZ=", "CRON_TZ=Asia/Tokyo"} {
+		for _, sep := range []string{"", " ", "\t", "\n", "\r", "\u00a0", "\t\t", " \t", "\t ", "  ", "\n\t", "\v", "\f"} {
+			for _, tail := range []string{"0", "0 1 * * *", ""} {
+				spec := Str(pre + sep + tail)
+				for form := 0; form < 5; form++ {
+					t := minimalDef()
+					switch form {
+					case 0:
+						t.Set("schedule", spec.Clone())
+					case 1:
+						t.Set("schedule", List(Str("0 1 * * *"), spec.Clone()))
+					case 2:
+						t.Set("schedule", Map(E("start", spec.Clone())))
+					case 3:
+						t.Set("schedule", Map(E("stop", List(spec.Clone()))))
+					default:
+						t.Set("schedule", Map(E("start", Str("0 1 * * *")), E("restart", spec.Clone())))
+					}
+					emit("targeted:tz", t)
+				}
+			}
+		}
+	}
 	// step-level invalid definitions
 	bad := []*Y{
 		Map(E("name", Str("s1"))),                             // nothing to execute
